@@ -12,8 +12,11 @@ ENV_BY_TIER = {"quick": {"NUMBA_DISABLE_JIT": "1"}, "thorough": {}}
 RULE = ("(a) reallocate_unphased called directly on generated arrays: 2-12 edges, 0-4 blocks (pairs of distinct "
         "edges, edges may be shared between blocks), singleton phases dyadic / arbitrary / 0 / 1 / NaN / out of "
         "range, counts consistent with the singletons or not; (b) ExpectationPropagation.infer on msprime diploid "
-        "inputs (1-4 individuals, with and without internal samples) with singletons_phased=False x rescaling "
-        "intervals x segregating-sites/path-length x max_shape x iterations, observing the fitted phases before "
+        "inputs (1-4 individuals, with and without internal samples; 40% decorated by gen.exotic: renumbered nodes, "
+        "extra flag bits, mutations above local roots (mutation_edges == NULL), mutation-free sites, unknown times, "
+        "states, populations) with singletons_phased=False x rescaling intervals x rescaling iterations x "
+        "segregating-sites/path-length (50/50) x max_shape x iterations x numpy-typed option scalars, 30% with infer() "
+        "called twice on the same object, observing the fitted phases before "
         "the switch, the arguments of reallocate_unphased and the count arrays after. Non-trivial when at least one "
         "singleton has a block; distinct by content hash")
 ASSUME = ["np.sum in the closing isclose test is modelled as a left-to-right sum",
@@ -149,8 +152,11 @@ def infer_case(rng):
     o["singletons_phased"] = False
     o["iterations"] = rng.choice([1, 2, 5])
     o["rescaling_intervals"] = rng.choice([1, 2, 5, 1000])
-    o["segsites"] = rng.random() < 0.4
+    o["rescaling_iterations"] = rng.choice([1, 5, 5])
+    o["segsites"] = rng.random() < 0.5
     o["max_shape"] = rng.choice([5.0, 20.0, 100.0, 1000.0])
+    o["np_types"] = rng.random() < 0.3
+    o["twice"] = rng.random() < 0.3     # infer() called a second time on the same object
     return c
 
 
@@ -188,10 +194,20 @@ def run_infer(case):
 
     V.ExpectationPropagation.propagate_mutations = staticmethod(watch_pm)
     V.reallocate_unphased = watch_re
+    def ty(x):
+        if not o.get("np_types"):
+            return x
+        return np.bool_(x) if isinstance(x, bool) else (np.int64(x) if isinstance(x, int) else np.float64(x))
     try:
         with np.errstate(all="ignore"):
-            ep.infer(ep_iterations=o["iterations"], max_shape=o["max_shape"], rescale_intervals=o["rescaling_intervals"],
-                     rescale_iterations=5, regularise=o["regularise"], rescale_segsites=o["segsites"])
+            for rep in range(2 if o.get("twice") else 1):
+                if rep:     # same object reused: the observations are those of the LAST call
+                    obs["raw"] = None
+                    obs["realloc"] = None
+                ep.infer(ep_iterations=ty(o["iterations"]), max_shape=ty(o["max_shape"]),
+                         rescale_intervals=ty(o["rescaling_intervals"]),
+                         rescale_iterations=ty(o.get("rescaling_iterations", 5)), regularise=ty(o["regularise"]),
+                         rescale_segsites=ty(o["segsites"]))
     except Exception as e:
         obs["error"] = type(e).__name__ + ": " + str(e)[:80]
     finally:
@@ -332,6 +348,11 @@ def infer_runs(ctx, model_ok, n):
         ctx.case({"kind": c["kind"], "opts": c["opts"], "singletons": ns, "on_second_edge": second, "error": obs["error"]},
                  nontrivial=ns > 0 and obs["realloc"] is not None, kind="infer/" + c["kind"])
         ctx.tally("singletons", ns)
+        ctx.tally("mutations-above-root", int(np.sum((np.array(ep.mutation_edges) == -1))))
+        for k in c.get("exotic", []):
+            ctx.tally("exotic-" + k)
+        if c["opts"].get("twice"):
+            ctx.tally("infer-called-twice")
         ctx.tally("singletons-placed-on-second-edge", second)
         if obs["error"]:
             ctx.tally("infer-raised-" + obs["error"].split(":")[0])
